@@ -399,6 +399,10 @@ func streamChan(o *Out, r *rand.Rand, n int, thorough bool) {
 		{"recv-arg-5-params", "src = make(chan int64, 6)\nfor i = 1; i <= 6; i++ {\nsrc <- i\n}\nfunc emit(v, a, b, c, d) { return v }\nr = []\nfor i = 0; i < 3; i++ {\nr += emit(<-src, 1, 2, 3, 4)\n}\nr + len(src)", "[1,2,3,3]"},
 		{"recv-arg-6-params-go", "ids = make(chan int64, 2)\nids <- 7\nids <- 8\nres = make(chan int64, 2)\nfunc worker(id, out, a, b, c, d) { out <- id }\ngo worker(<-ids, res, 1, 2, 3, 4)\ngo worker(<-ids, res, 1, 2, 3, 4)\n(<-res) + (<-res)", "15"},
 		{"recv-arg-variadic", "src = make(chan int64, 4)\nfor i = 1; i <= 4; i++ {\nsrc <- i\n}\nfunc first(v...) { return v[0] }\n[first(<-src, 0), first(<-src), len(src)]", "[1,2,2]"},
+		{"forward-after-close-int", "src = make(chan int64, 5)\nfor i = 1; i <= 5; i++ {\nsrc <- i * 10\n}\nclose(src)\ndst = make(chan int64, 8)\nfor i = 0; i < 8; i++ {\ndst <- src\n}\nclose(dst)\nr = []\nfor v in dst {\nr += v\n}\nr", "[10,20,30,40,50]"},
+		{"forward-after-close-iface", "src = make(chan interface, 2)\nsrc <- 1\nsrc <- \"a\"\nclose(src)\ndst = make(chan interface, 4)\nfor i = 0; i < 4; i++ {\ndst <- src\n}\nlen(dst)", "2"},
+		{"forward-relay-goroutine", "src = make(chan int64)\ndst = make(chan int64)\ngo func() {\nfor i = 1; i <= 3; i++ {\nsrc <- i\n}\nclose(src)\n}()\ngo func() {\nfor i = 0; i < 6; i++ {\ndst <- src\n}\nclose(dst)\n}()\nr = []\nfor v in dst {\nr += v\n}\nr", "[1,2,3]"},
+		{"call-through-expression-per-stage", "fns = [func(v) { return v + 1 }, func(v) { return v + 100 }, func(v) { return v + 10000 }, func(v) { return v + 1000000 }]\nchs = [make(chan int64, 4), make(chan int64, 4), make(chan int64, 4), make(chan int64, 4), make(chan int64, 4)]\nfor i = 0; i < 4; i++ {\ngo func(i) {\nfor x in chs[i] {\nchs[i + 1] <- fns[i](x)\n}\nclose(chs[i + 1])\n}(i)\n}\ngo func() {\nfor k = 0; k < 4000; k++ {\nchs[0] <- 0\n}\nclose(chs[0])\n}()\nbad = 0\nn = 0\nfor y in chs[4] {\nn++\nif y != 1010101 {\nbad++\n}\n}\n[n, bad]", "[4000,0]"},
 		{"go-args-before-start", "c = make(chan int64)\ngo func(a, b) {\nc <- a + b\n}(probe(1), probe(2))\nprobe(3)\n<-c", "3"},
 		{"convert-float-to-int64-chan", "c = make(chan int64, 1)\nc <- 2.0\n<-c", "2"},
 		{"convert-int-to-float-chan", "c = make(chan float64, 1)\nc <- 2\n<-c", "2"},
